@@ -399,6 +399,13 @@ pub const CORPUS: &[&str] = &[
     "<a xmlns:xmlns='zzz'/>",
     "<a xmlns:p=''><p:b/></a>",
     "<a xmlns:xml='http://www.w3.org/XML/1998/namespace' xml:id='i'/>",
+    // C17 slices: the witness of Props/C17 (sliceWitness), runs that start / end inside a CDATA
+    // section or contain an empty one, names written with a leading colon
+    "<p:a xmlns:p=\"u\" b=\"x&#10;y\">t&lt;<![CDATA[c]]><!--k--><?pi d?></p:a>",
+    "<a><![CDATA[x]]>y<![CDATA[]]>&amp;<![CDATA[z\r]]></a>",
+    "<a>x<![CDATA[]]></a>",
+    "<:a/>",
+    "<a :b='1'/>",
 ];
 
 const SNIPPETS: &[&str] = &[
